@@ -25,8 +25,11 @@ TRUSTED_LIB = [
     "under its own nonce)",
     "HKDF (wormhole.util.HKDF -> cryptography): a function of (key, length, info) only, output has the requested length; "
     "injective in (key, info) for equal lengths (PRF idealisation, used only by the lemmas that say so)",
-    "binascii: len(hexlify(b)) == 2 len(b); unhexlify(hexlify(b)) == b; int(hexlify(b), 16) / unhexlify('%0Nx' % n) are the "
-    "big-endian value / encoding, mutually inverse on 0 <= n < 256**(N/2)",
+    "binascii: len(hexlify(b)) == 2 len(b); unhexlify(hexlify(b)) == b; int(hexlify(b), 16) / unhexlify('%0Nx' % n) ARE the "
+    "big-endian value / encoding of the definition (library semantics, assumed).  That the two are mutually inverse on "
+    "0 <= n < 256**(N/2) is no longer assumed for the widths used (N/2 = 4, 24): C06's task be-definitional derives it from "
+    "the definition (digits by divmod, bytes by chr/ord); for other lengths (a frame shorter than 24 bytes fed to "
+    "int(hexlify(encrypted[:24]), 16)) enc(value(s), len(s)) == s remains an assumed instance of the same schema",
     "Twisted: defer.Deferred() returns a new object; callback/errback/cancel/addBoth/addCallbacks on it, transport.write / "
     "loseConnection, TimeoutMixin.setTimeout, reactor.callLater are boundary events recorded in call order and do not call "
     "back into the object under contract synchronously",
@@ -300,6 +303,65 @@ def make_transit_registry(contracts, exclude=()):
                "iter_bcall_names": iter_bcall_names, "iter_bcall_arg": iter_bcall_arg, "n_events": n_events,
                "event_arg": event_arg, "is_method_of": is_method_of, "last_bcall_arg": last_bcall_arg, "seq_unfold": seq_unfold})
     return reg
+
+
+# ------------------------------------------------------------------ big-endian <-> bytes from the definition
+def be_definitional_task(tier, seed):
+    """The two axiom schemas used for be_enc / be_value (be_enc_guarded, models.be_value_of) are derived here from the
+    DEFINITION of the big-endian encoding instead of being assumed: ENC_L(n) = chr(d_0) .. chr(d_{L-1}) with d the base-256
+    digits of n (repeated divmod, most significant first), VAL_L(s) = sum(code(s[i]) * 256**(L-1-i)), for the two widths
+    the transit code uses (4: frame length, 24: nonce).  Pieces, each one SMT query:
+      digits-recompose[L]   0 <= n < 256**L  =>  every digit in 0..255, nothing left over, sum(d_i * 256**(L-1-i)) == n
+      string-of-codes[L]    codes c_i in 0..255  =>  len(chr(c_0)..chr(c_{L-1})) == L and code of its i-th char == c_i
+        (together: len(ENC_L(n)) == L and VAL_L(ENC_L(n)) == n, by substituting c_i := d_i(n))
+      codes-of-string[L]    len(x) == L  =>  x == chr(code(x[0])) .. chr(code(x[L-1]))
+      horner-step           v >= 0, 0 <= c <= 255  =>  (256 v + c) % 256 == c and (256 v + c) // 256 == v
+      value-in-range[L]     codes in 0..255  =>  0 <= VAL_L < 256**L
+        (together: the digits of VAL_L(x) are the codes of x - L applications of horner-step - hence ENC_L(VAL_L(x)) == x)
+    The joining substitutions are rewriting steps done here in the text, not SMT queries."""
+    import time
+    from pyvc.runner import ob
+    t0 = time.time()
+    obs = []
+
+    def chk(name, hyps, goal, src):
+        sol = z3.Solver()
+        sol.set("timeout", 20000 if tier == "quick" else 60000)
+        sol.add(*hyps)
+        sol.add(z3.Not(goal))
+        t1 = time.time()
+        r = sol.check()
+        st = "discharged" if r == z3.unsat else ("failed" if r == z3.sat else "unknown")
+        obs.append(ob(name, st, "z3", time.time() - t1, False, str(sol.model()) if r == z3.sat else None,
+                      {"kind": "lemma", "src": src, "definite": r == z3.sat}, smt_hash=name))
+
+    v, c1 = z3.Int("v"), z3.Int("c")
+    chk("be-definitional.horner-step", [v >= 0, c1 >= 0, c1 <= 255], z3.And((256 * v + c1) % 256 == c1, (256 * v + c1) / 256 == v),
+        "(256 v + c) % 256 == c and (256 v + c) // 256 == v")
+    for L in (4, 24):
+        n = z3.Int("n")
+        q, d = n, []
+        for _ in range(L):
+            d.append(q % 256)
+            q = q / 256
+        d = d[::-1]
+        chk(f"be-definitional[{L}].digits-recompose", [n >= 0, n < 256 ** L],
+            z3.And(q == 0, z3.Sum([d[i] * 256 ** (L - 1 - i) for i in range(L)]) == n, *[z3.And(x >= 0, x <= 255) for x in d]),
+            "the base-256 digits of n recompose to n")
+        c = [z3.Int(f"c{i}") for i in range(L)]
+        rng = [z3.And(ci >= 0, ci <= 255) for ci in c]
+        s_ = z3.Concat(*[z3.StrFromCode(ci) for ci in c])
+        chk(f"be-definitional[{L}].string-of-codes", rng,
+            z3.And(z3.Length(s_) == L, *[z3.StrToCode(z3.SubString(s_, i, 1)) == c[i] for i in range(L)]),
+            "the i-th byte of chr(c_0)..chr(c_{L-1}) is c_i")
+        x = z3.String("x")
+        chk(f"be-definitional[{L}].codes-of-string", [z3.Length(x) == L],
+            x == z3.Concat(*[z3.StrFromCode(z3.StrToCode(z3.SubString(x, i, 1))) for i in range(L)]),
+            "a string of length L is the concatenation of its L characters")
+        val = z3.Sum([c[i] * 256 ** (L - 1 - i) for i in range(L)])
+        chk(f"be-definitional[{L}].value-in-range", rng, z3.And(val >= 0, val < 256 ** L), "0 <= VAL_L < 256**L")
+    return {"obligations": obs, "info": {"target": "be_enc / be_value <definitional big-endian model, widths 4 and 24>", "sha": None,
+                                         "lines": None, "paths": 1, "wall": round(time.time() - t0, 3)}}
 
 
 class BodyLemma(Contract):
